@@ -9,7 +9,8 @@ Ns == {0, 3}
 Str(n, w) == [t |-> "str", n |-> n, wide |-> w]
 Bytes(n) == [t |-> "bytes", n |-> n]
 Leaf == {[t |-> "none"], [t |-> "int"]} \cup {Str(n, w) : n \in Ns, w \in BOOLEAN} \cup {Bytes(n) : n \in Ns}
-Files == {[t |-> "file", n |-> n, closeable |-> c, id |-> 7] : n \in Ns, c \in BOOLEAN}
+CF == {<<TRUE, TRUE>>, <<TRUE, FALSE>>, <<FALSE, FALSE>>}      \* <<closeable, its close() raises>>
+Files == {[t |-> "file", n |-> n, closeable |-> c[1], closefail |-> c[2], id |-> 7] : n \in Ns, c \in CF}
 Items == {[t |-> "estr"], [t |-> "ebytes"], Str(2, FALSE), Str(1, TRUE), Bytes(2), [t |-> "int"], [t |-> "raise"],
           [t |-> "iresp", code |-> 201, n |-> 2], [t |-> "rresp", code |-> 202, n |-> 2]}
 Kind(i) == IF i.t \in {"str", "estr"} THEN "s" ELSE IF i.t \in {"bytes", "ebytes"} THEN "b" ELSE "x"
@@ -17,13 +18,14 @@ Kind(i) == IF i.t \in {"str", "estr"} THEN "s" ELSE IF i.t \in {"bytes", "ebytes
 Homog(s) == \A i, j \in 1..Len(s) : i < j => ~(Kind(s[i]) = "s" /\ Kind(s[j]) = "b") /\ ~(Kind(s[i]) = "b" /\ Kind(s[j]) = "s")
                                           /\ ~(Kind(s[i]) \in {"s", "b"} /\ ~EmptyItem(s[i]) /\ Kind(s[j]) = "x")
 ItemSeqs == {s \in UNION {[1..k -> Items] : k \in 0..3} : Homog(s)}
-Iters == {[t |-> "gen", items |-> s, closeable |-> c, id |-> 5] : s \in ItemSeqs, c \in BOOLEAN}
+Iters == {[t |-> "gen", items |-> s, closeable |-> c[1], closefail |-> c[2], id |-> 5] : s \in ItemSeqs, c \in CF}
          \cup {[t |-> "list", items |-> s] : s \in {x \in ItemSeqs : \A i \in 1..Len(x) : x[i].t \in {"estr", "ebytes", "str", "bytes"}}}
 L1 == Leaf \cup Files \cup Iters
 Codes == {100, 102, 200, 201, 204, 304, 404, 418, 500}
 Wrap(S) == {[t |-> "err", code |-> c] : c \in {404, 418, 500}} \cup {[t |-> "resp", code |-> c, body |-> b] : c \in Codes, b \in S}
-Small == {[t |-> "none"], Str(3, TRUE), Bytes(3), [t |-> "gen", items |-> <<[t |-> "estr"], Str(2, FALSE)>>, closeable |-> TRUE, id |-> 5],
-          [t |-> "file", n |-> 3, closeable |-> TRUE, id |-> 7], [t |-> "err", code |-> 404]}
+Small == {[t |-> "none"], Str(3, TRUE), Bytes(3), [t |-> "gen", items |-> <<[t |-> "estr"], Str(2, FALSE)>>, closeable |-> TRUE, closefail |-> FALSE, id |-> 5],
+          [t |-> "file", n |-> 3, closeable |-> TRUE, closefail |-> FALSE, id |-> 7],
+          [t |-> "file", n |-> 3, closeable |-> TRUE, closefail |-> TRUE, id |-> 7], [t |-> "err", code |-> 404]}
 L2 == L1 \cup Wrap(L1) \cup {[t |-> "resp", code |-> 201, body |-> w] : w \in Wrap(Small)}
 Progs == {[k |-> "ret", v |-> v, setst |-> s] : v \in L2, s \in {0}} \cup {[k |-> "ret", v |-> v, setst |-> s] : v \in Small, s \in {204, 102, 299}}
          \cup {[k |-> "raise", v |-> v] : v \in Wrap(Small)} \cup {[k |-> "exc"]}
